@@ -73,7 +73,7 @@ def pktOf (o : O) (tok : String) : Option (Pkt × Option String) :=
 def cfgOf (o : O) (c : OConn) : Cfg := { fix := o.fix, v5 := c.v5 }
 
 def prio : List Act :=
-  [.rSendAbort, .rRead, .rReadErr, .rSend, .rWaitConn, .rErr, .rSendDisc, .rCloseIn,
+  [.rSendAbort, .rRead, .rReadErr, .rSend, .rWaitConn, .rAuthStep, .rErr, .rSendDisc, .rCloseIn,
    .wRecv, .wWriteOk, .wWriteFail, .wClose, .wDrain, .wFlushConnack, .wFlush, .wErr, .wCloseSock,
    .cRecv, .cRecvNil, .cSendAuth, .cSendAuthSkip, .cSendErrConnack, .cSendErrConnackSkip,
    .cWriteConnack, .cWriteConnackSkip, .cErr, .cCloseConnected,
@@ -218,21 +218,19 @@ def stuckOf (o : O) : List String := Id.run do
   let mut r : List String := []
   for c in o.conns do
     let s := c.st
+    -- a plain channel send shows as `chan send`; the repaired code has a `select` in these places (`select` is a
+    -- state the driver accepts as waiting for input)
     match s.r with
-    | .send _ => r := r ++ ["read:chan_send"]
-    | .sendDisc => r := r ++ ["read:chan_send"]
+    | .send _ => if !o.fix.readSelect then r := r ++ ["read:chan_send"]
     | .setErr _ => if s.once == .running then r := r ++ ["read:sync.Mutex.Lock"]
     | _ => pure ()
     if s.w == .setErr && s.once == .running then r := r ++ ["write:sync.Mutex.Lock"]
-    if s.s == .cSendAuth || s.s == .cSendErrConnack then r := r ++ ["serve:chan_send"]
+    if (s.s == .cSendAuth || s.s == .cSendErrConnack) && !o.fix.connSelect then r := r ++ ["serve:chan_send"]
     if s.s == .cSetErr && s.once == .running then r := r ++ ["serve:sync.Mutex.Lock"]
-    if s.h == .sendDisc then r := r ++ ["handle:chan_send"]
     if s.p == .setErr && s.once == .running then r := r ++ ["poll:sync.Mutex.Lock"]
     match s.h with
     | .setErr _ => if s.once == .running then r := r ++ ["handle:sync.Mutex.Lock"]
     | _ => pure ()
-    -- the goroutine of ANOTHER connection that is taking this one over runs that connection's serve()
-    if s.x == .sendDisc then r := r ++ ["serve:chan_send"]
   return r.toArray.qsort (· < ·) |>.toList
 
 def census (o : O) : String :=
